@@ -58,6 +58,7 @@ class Ctx:
         self.mode = mode  # 'sym' | 'real'
         self.solver = z3.SolverFor(Ctx.LOGIC[0]) if Ctx.LOGIC[0] else z3.Solver()
         self.solver.set('timeout', timeout_ms)
+        self.timeout_ms = timeout_ms
         self.prefix = list(prefix)
         self.pos = 0
         self.pending = []
@@ -88,6 +89,14 @@ class Ctx:
     def _check(self, *assump):
         t = time.time()
         r = self.solver.check(*assump)
+        if r == z3.unknown and self.timeout_ms and time.time() - t >= 0.5 * self.timeout_ms / 1000.0:
+            # timed out (possibly only because the machine is loaded): one retry with five times the budget
+            self.solver.set('timeout', min(5 * self.timeout_ms, 900000))
+            try:
+                r = self.solver.check(*assump)
+                self.retries = getattr(self, 'retries', 0) + 1
+            finally:
+                self.solver.set('timeout', self.timeout_ms)
         self.solver_s += time.time() - t
         self.queries += 1
         return r
